@@ -111,6 +111,40 @@ Proof.
   - intros a Ha. apply B6. rewrite E6, Ha. reflexivity.
   - intros x Hx. apply BD. rewrite Ed, Hx. reflexivity.
 Qed.
+(* PPPoE, DHCPv6 over PPP: the REPLY's IA_NA address and delegated prefix are what bindDHCPv6 records as the session's
+   IPv6Address / IPv6Prefix, and the session owns them in the registry of its VRF *)
+Lemma pppoe_v6_reply_is_recorded st sid st' a6 ad r6 rd :
+  reach Repaired (init_state ps ss) st ->
+  In (st', OPs true (Some (a6, ad)) r6 rd) (step Repaired st (PS true sid)) ->
+  r6 = a6 /\ rd = ad /\
+  exists s', find_sess sid st' = Some s' /\ s_a6 s' = a6 /\ s_ad s' = ad /\
+             (forall a, a6 = Some a -> owns (st_reg st') F6 (s_vrf s') (a, 0) sid) /\
+             (forall x, ad = Some x -> owns (st_reg st') FD (s_vrf s') x sid).
+Proof.
+  intros Hr Hin. pose proof (reach_inv1 _ Hr) as Hinv.
+  assert (Hinv' : inv K1 st').
+  { eapply (step_inv K1 K1_shape (fun r H => proj1 H) (fun r H => proj2 H)); eauto. }
+  cbn [step] in Hin. destruct (find_sess sid st) as [s|] eqn:Ef; [|destruct Hin as [H|[]]; inversion H].
+  destruct (s_ppp s) eqn:Ep; cbn [andb] in Hin; [|destruct Hin as [H|[]]; inversion H].
+  destruct (s_live s) eqn:El; cbn [andb] in Hin; [|destruct Hin as [H|[]]; inversion H].
+  destruct (s_started s); [|destruct Hin as [H|[]]; inversion H].
+  unfold step_ps in Hin. apply in_map_iff in Hin. destruct Hin as ([[[r2 c6] cd] res] & E & _).
+  destruct (find_sess_in _ _ _ Ef) as [_ Hid].
+  destruct res as [[[[b6 bd] k6] kd]|]; [|inversion E].
+  destruct (prov6_resolved _ _ _ _ _ _ _ _) as [q' [|]]; inversion E; subst; clear E.
+  split; [reflexivity|split; [reflexivity|]].
+  match goal with
+  | |- exists s', find_sess _ (mkState _ (put_sess ?S _) _) = _ /\ _ => set (s2 := S)
+  end.
+  assert (Hf' : find_sess (s_id s) (mkState r2 (put_sess s2 (st_sess st)) (with_p6 (st_prov st) q')) = Some s2).
+  { unfold find_sess; cbn [st_sess]. change (s_id s) with (s_id s2). apply find_put with (s := s). exact Ef. }
+  exists s2. split; [exact Hf'|split; [reflexivity|split; [reflexivity|]]].
+  destruct (find_sess_in _ _ _ Hf') as [Hin2 _].
+  destruct (inv_sess K1 _ _ Hinv' Hin2) as [Hs _]. destruct (Hs El) as (X & _). destruct (X Ep) as (_ & X6 & XD).
+  split.
+  - intros a Ha. apply X6. cbn. rewrite Ha. reflexivity.
+  - intros x Hx. apply XD. cbn. exact Hx.
+Qed.
 End Told.
 
 (* PPPoE / IPCP: whatever the peer proposes, and in whatever order (a Nak'ed or rejected proposal first, a request
